@@ -471,6 +471,27 @@ def process_candidates(prop, engine, binary, cands, get_plan, env=None, header=N
     return violations, known_hits, harness_errors
 
 
+def gate_candidate_difference(c_gate, c_main, get_plan, binary, env=None, args=None, exec_timeout=300, limit=6, log=print):
+    """The determinism gate found different candidate sets for the same runs in two batches.  That is a harness fault
+    only if a run is not a function of its plan: each differing run is executed twice in fresh processes; if those agree
+    with each other, the difference between the batches comes from state the code under test carries from earlier runs
+    of a worker process into later ones (handled per candidate by the context replay), not from the harness.
+    Returns a list of harness error strings (empty = explained)."""
+    a = set((c["run"], c["sig"]) for c in c_gate)
+    b = set((c["run"], c["sig"]) for c in c_main)
+    diff = sorted(a ^ b)
+    errors = []
+    for run, sig in diff[:limit]:
+        plan = get_plan({"run": run, "sig": sig})
+        x = exec_plan(binary, plan, env, timeout=exec_timeout, args=args)
+        y = exec_plan(binary, plan, env, timeout=exec_timeout, args=args)
+        if x["sig"] != y["sig"] or x["hash"] != y["hash"]:
+            errors.append("run %s is not a function of its plan: two fresh executions gave %s/%s (hashes %s/%s)" % (run, x["sig"], y["sig"], x["hash"], y["hash"]))
+    if diff and not errors:
+        log("NOTE the determinism gate saw %d run(s) whose verdict depends on what their worker process had executed before (each is deterministic on its own); see the context replays" % len(diff))
+    return errors
+
+
 def replay_file(binary, path, env=None, timeout=300, args=None):
     rep = json.load(open(path))
     return exec_plan(binary, rep["ops"], env, timeout=timeout, header=rep.get("header"), args=args)
